@@ -250,7 +250,13 @@ def arbitrary_state(c, pre):
     pres, orders = [], []
     entries = []
     for i in range(N):
-        o = sym_order(L, inp, 'o%d' % i, variants=types[i], oid=const_order_id(i + 1), price=h.P)
+        oprice = h.P
+        if c.cube.get('order_price_offsets'):
+            # order prices may differ from the level price (the level never validates them)
+            oprice = h.P
+            for j, off in enumerate(c.cube['order_price_offsets']):
+                oprice = S.Ite(inp.var('o%d.price_off%d' % (i, j), S.B), S.Add(h.P, S.bv(off, 64)), oprice)
+        o = sym_order(L, inp, 'o%d' % i, variants=types[i], oid=const_order_id(i + 1), price=oprice)
         pr = inp.var('o%d.present' % i, S.B)
         v = OrderView(L, o)
         c.domain.append(S.Not(S.AddOvf(v.displayed, v.hidden)))
